@@ -5,6 +5,8 @@ Model: RpylibModel/Model/Sde.lean.  Every theorem about the scheme is stated for
 -/
 import RpylibModel.Model.Sde
 import RpylibModel.Proofs.Lemmas.C16Sum
+import RpylibModel.Proofs.Lemmas.C16Shape
+import RpylibModel.Proofs.Lemmas.C16Real
 import Mathlib.Tactic.Linarith
 import Mathlib.Tactic.Ring
 import Mathlib.Tactic.FieldSimp
@@ -114,6 +116,156 @@ theorem coupled_diag (d : Nat) (mu : Nat → Vec) (P : DriverPair) (x0 : Vec) (i
     eulerPair ⟨d, zeroB, diagA, mu⟩ P x0 i c k = x0 k * prodTo i (fun l => 1 + dY (mu c) (P.comp c) l k) := by
   rw [coupled_component]
   exact euler_diag d (mu c) (P.comp c) x0 i k hk
+
+/-! ### shapes: which of the offered coefficient objects commute with the stacking of `CouplingSDE`
+
+`eulerStepPair` reads `a(t, zi)` on the stacked `(2, m, 1)` state as "`a` applied to each component".  With the NumPy
+rules of `Model/Sde.lean` (`bmul`, `npDiag`, `matmul`) this is a theorem for `Constant` and for `sigma(t) * x`
+(`LiborSDEFunction`, `ForwardMarketSDEFunction`), and false for `DiagX`, which raises on the stacked state and extracts
+one entry from the column state. -/
+
+private theorem ite_vec (c : Nat) (u0 u1 : Vec) (l : Nat) :
+    (if c = 0 then u0 else u1) l = if c = 0 then u0 l else u1 l := by split <;> rfl
+
+/-- **`Constant` commutes with stacking**: the `(m, d)` matrix is broadcast over the leading axis; entry `[c, k, 0]` of
+    `a(t, zi) @ v` (`v` = stacked driver drift / increment, shape `(2, d, 1)`) is `(C v_c)_k` — the term of
+    `eulerStepPair`; on the column state the result is the `(m, 1)` column `C v` -/
+theorem constant_commutes_with_stacking (m d : Nat) (C : Mat) (z : NArr) (u0 u1 : Vec) :
+    (∃ R, applyCoef (constCall m d C z) (stack2 (colArr d u0) (colArr d u1)) = some R ∧ R.shape = [2, m, 1] ∧
+      ∀ c k, R.get [c, k, 0] = mv d (constA C 0 (fun _ => 0)) (if c = 0 then u0 else u1) k) ∧
+    (∃ R, applyCoef (constCall m d C z) (colArr d u0) = some R ∧ R.shape = [m, 1] ∧
+      ∀ k, R.get [k, 0] = mv d (constA C 0 (fun _ => 0)) u0 k) := by
+  constructor
+  · let B : NArr := stack2 (colArr d u0) (colArr d u1)
+    let R : NArr := ⟨[2, m, 1], fun idx => match idx with
+      | [s, i, j] => sumTo d (fun l => (matArr m d C).get [i, l] * B.get [s, l, j]) | _ => 0⟩
+    have e : applyCoef (constCall m d C z) B = some R := by
+      show (if d = d then some R else none) = some R
+      simp
+    refine ⟨R, e, rfl, ?_⟩
+    intro c k
+    show sumTo d (fun l => (matArr m d C).get [k, l] * B.get [c, l, 0]) = _
+    simp only [mv, constA, ite_vec]
+    apply sumTo_congr; intro l _
+    simp only [matArr, B, stack2, colArr]
+  · let R : NArr := ⟨[m, 1], fun idx => match idx with
+      | [i, j] => sumTo d (fun l => (matArr m d C).get [i, l] * (colArr d u0).get [l, j]) | _ => 0⟩
+    have e : applyCoef (constCall m d C z) (colArr d u0) = some R := by
+      show (if d = d then some R else none) = some R
+      simp
+    refine ⟨R, e, rfl, ?_⟩
+    intro k
+    show sumTo d (fun l => (matArr m d C).get [k, l] * (colArr d u0).get [l, 0]) = _
+    simp only [mv, constA, matArr, colArr]
+
+/-- **`sigma(t) * x` commutes with stacking** (`LiborSDEFunction`, `ForwardMarketSDEFunction`): on the stacked state
+    broadcasting gives the `(2, m, d)` array whose `[c, k, j]` entry is `sigma_kj · x_{c,k}` = `scaleA` applied to
+    component `c`, and `a(t, zi) @ v` has entry `[c, k, 0]` = the term of `eulerStepPair` -/
+theorem scale_commutes_with_stacking (m d : Nat) (sigma : Mat) (x0 x1 u0 u1 : Vec) :
+    ∃ A R, scaleCall m d sigma (stack2 (colArr m x0) (colArr m x1)) = some A ∧ A.shape = [2, m, d] ∧
+      (∀ c k j, k < m → j < d → A.get [c, k, j] = scaleA (fun _ => sigma) 0 (if c = 0 then x0 else x1) k j) ∧
+      matmul A (stack2 (colArr d u0) (colArr d u1)) = some R ∧ R.shape = [2, m, 1] ∧
+      ∀ c k, k < m → R.get [c, k, 0]
+        = mv d (scaleA (fun _ => sigma) 0 (if c = 0 then x0 else x1)) (if c = 0 then u0 else u1) k := by
+  have hA : ∀ c k j, k < m → j < d →
+      (matArr m d sigma).get (bidx [m, d] [c, k, j]) * (stack2 (colArr m x0) (colArr m x1)).get (bidx [2, m, 1] [c, k, j])
+        = scaleA (fun _ => sigma) 0 (if c = 0 then x0 else x1) k j := by
+    intro c k j hk hj
+    rw [bidx_mat3 m d c k j hk hj, bidx_stack3 m c k j hk]
+    simp only [matArr, stack2, colArr, scaleA, ite_vec]
+  let A : NArr := ⟨[2, m, d], fun idx => (matArr m d sigma).get (bidx [m, d] idx)
+    * (stack2 (colArr m x0) (colArr m x1)).get (bidx [2, m, 1] idx)⟩
+  let B : NArr := stack2 (colArr d u0) (colArr d u1)
+  let R : NArr := ⟨[2, m, 1], fun idx => match idx with
+    | [s, i, j] => sumTo d (fun l => A.get [s, i, l] * B.get [s, l, j]) | _ => 0⟩
+  have e1 : scaleCall m d sigma (stack2 (colArr m x0) (colArr m x1)) = some A := by
+    show (bshape [m, d] [2, m, 1]).map _ = _
+    rw [bshape_mat_stack]; rfl
+  have e2 : matmul A B = some R := by
+    show (if d = d ∧ 2 = 2 then some R else none) = some R
+    simp
+  refine ⟨A, R, e1, rfl, hA, e2, rfl, ?_⟩
+  intro c k hk
+  show sumTo d (fun l => ((matArr m d sigma).get (bidx [m, d] [c, k, l])
+      * (stack2 (colArr m x0) (colArr m x1)).get (bidx [2, m, 1] [c, k, l]))
+      * (stack2 (colArr d u0) (colArr d u1)).get [c, l, 0]) = _
+  simp only [mv]
+  apply sumTo_congr; intro l hl
+  rw [hA c k l hk hl]
+  simp only [stack2, colArr, ite_vec]
+
+/-- the same object on the column state of `MarkovChainSDE`: the `(m, d)` matrix `sigma_kj · x_k` -/
+theorem scale_on_column_state (m d : Nat) (sigma : Mat) (x u : Vec) :
+    ∃ A R, scaleCall m d sigma (colArr m x) = some A ∧ A.shape = [m, d] ∧
+      (∀ k j, k < m → j < d → A.get [k, j] = scaleA (fun _ => sigma) 0 x k j) ∧
+      matmul A (colArr d u) = some R ∧ R.shape = [m, 1] ∧
+      ∀ k, k < m → R.get [k, 0] = mv d (scaleA (fun _ => sigma) 0 x) u k := by
+  have hA : ∀ k j, k < m → j < d →
+      (matArr m d sigma).get (bidx [m, d] [k, j]) * (colArr m x).get (bidx [m, 1] [k, j]) = scaleA (fun _ => sigma) 0 x k j := by
+    intro k j hk hj
+    rw [bidx_mat2 m d k j hk hj, bidx_col2 m k j hk]
+    simp only [matArr, colArr, scaleA]
+  let A : NArr := ⟨[m, d], fun idx => (matArr m d sigma).get (bidx [m, d] idx) * (colArr m x).get (bidx [m, 1] idx)⟩
+  let R : NArr := ⟨[m, 1], fun idx => match idx with
+    | [i, j] => sumTo d (fun l => A.get [i, l] * (colArr d u).get [l, j]) | _ => 0⟩
+  have e1 : scaleCall m d sigma (colArr m x) = some A := by
+    show (bshape [m, d] [m, 1]).map _ = _
+    rw [bshape_mat_col]; rfl
+  have e2 : matmul A (colArr d u) = some R := by
+    show (if d = d then some R else none) = some R
+    simp
+  refine ⟨A, R, e1, rfl, hA, e2, rfl, ?_⟩
+  intro k hk
+  show sumTo d (fun l => ((matArr m d sigma).get (bidx [m, d] [k, l]) * (colArr m x).get (bidx [m, 1] [k, l]))
+      * (colArr d u).get [l, 0]) = _
+  simp only [mv]
+  apply sumTo_congr; intro l hl
+  rw [hA k l hk hl]
+  simp only [colArr]
+
+/-- **`DiagX` does not commute with stacking**: `np.diag` of the 3-d stacked state raises (known finding
+    C16-diagx-stacked-state) — for every dimension -/
+theorem diag_rejects_stacked_state (m : Nat) (x0 x1 : Vec) :
+    diagCall (stack2 (colArr m x0) (colArr m x1)) = none := rfl
+
+/-- … and on the column state `(m, 1)` it *extracts* the one-entry diagonal `[x_0]` instead of building `diag(x)`;
+    for `m ≥ 2` the product with the `(m, 1)` driver column then raises (known finding C16-diagx-column-state) -/
+theorem diag_on_column_state (m : Nat) (x mu : Vec) (hm : 2 ≤ m) :
+    (∃ A, diagCall (colArr m x) = some A ∧ A.shape = [1] ∧ A.get [0] = x 0) ∧
+    applyCoef (diagCall (colArr m x)) (colArr m mu) = none := by
+  have h1 : min m 1 = 1 := by omega
+  have h2 : ¬ (1 = m) := by omega
+  constructor
+  · refine ⟨_, rfl, ?_, rfl⟩
+    simp [h1]
+  · simp [applyCoef, diagCall, npDiag, colArr, matmul, h1, h2]
+
+/-- for `m = d = 1` the extraction happens to give `[x]` and the product is `x·mu` = `diagA`: the scheme is correct -/
+theorem diag_on_column_state_1d (x mu : Vec) :
+    ∃ R, applyCoef (diagCall (colArr 1 x)) (colArr 1 mu) = some R ∧ R.shape = [1] ∧
+      R.get [0] = mv 1 (diagA 0 x) mu 0 := by
+  refine ⟨_, by simp [applyCoef, diagCall, npDiag, colArr, matmul]; rfl, rfl, ?_⟩
+  simp [mv, sumTo, diagA]
+
+theorem sumTo_zero_fun (n : Nat) (f : Nat → Rat) (h : ∀ i, i < n → f i = 0) : sumTo n f = 0 := by
+  induction n with
+  | zero => rfl
+  | succ n ih => rw [sumTo_succ, ih (fun i hi => h i (by omega)), h n (by omega)]; ring
+
+/-- **a Libor rate that has fixed no longer moves with the driver**: with `sigma(t)` of `LiborSDEFunction` the Euler
+    step of component `k` at a time `t_i ≥ T_k` has no jump and no diffusion increment, and no driver-drift term — for
+    every driver path and state (only the sde drift `b·dt` remains) -/
+theorem libor_fixed_rate_frozen (d : Nat) (b : Rat → Vec → Vec) (sigma : Mat) (T : Nat → Rat) (mu : Vec)
+    (P : DriverPath) (z : Vec) (i k : Nat) (hfix : T k ≤ P.t i) :
+    eulerStep ⟨d, b, scaleA (liborSigma sigma T), mu⟩ P z i k = z k + b (P.t i) z k * P.dt i := by
+  have h0 : ∀ v : Vec, mv d (scaleA (liborSigma sigma T) (P.t i) z) v k = 0 := by
+    intro v
+    unfold mv
+    apply sumTo_zero_fun
+    intro j _
+    simp [scaleA, liborSigma, hfix]
+  simp only [eulerStep, driftInc, jumpInc, diffInc, h0]
+  ring
 
 /-! ### the discount curve -/
 
@@ -328,6 +480,203 @@ theorem dfCurve?_some (x0 tenors : List Rat) (t : Rat) (hlen : tenors.length = x
     constructor
     · intro h'; cases h'
     · intro h'; exact absurd ⟨by omega, h'.2⟩ h
+
+/-! ### continuity over all times: the Lipschitz bound, and the ε-δ statement it gives -/
+
+/-- pure algebra: if `B = A + σ·δ` with `σ ≤ R·A`, `A > 0`, `B ≥ 1`, then `1/A − 1/B ≤ R·δ` -/
+theorem inv_sub_inv_le {A B σ R δ : Rat} (hA : 0 < A) (hB : 1 ≤ B) (hAB : B = A + σ * δ) (hσ : σ ≤ R * A)
+    (hδ : 0 ≤ δ) (hR : 0 ≤ R) : 1 / A - 1 / B ≤ R * δ := by
+  have hB0 : 0 < B := by linarith
+  rw [div_sub_div _ _ hA.ne' hB0.ne', div_le_iff₀ (mul_pos hA hB0)]
+  have h1 : σ * δ ≤ R * A * δ := mul_le_mul_of_nonneg_right hσ hδ
+  have h2 : 0 ≤ R * A * δ := mul_nonneg (mul_nonneg hR hA.le) hδ
+  have h3 : R * A * δ ≤ R * A * δ * B := le_mul_of_one_le_right h2 hB
+  have e : R * δ * (A * B) = R * A * δ * B := by ring
+  rw [e]; linarith
+
+/-- on one branch (between two tenors) the discount factor drops by at most `R·(t − s)`, `R` a bound of the rates -/
+theorem df_lipschitz_on_piece {x T : Nat → Rat} {n : Nat} (h : Curve x T n) {R : Rat} (hR : ∀ i, x i ≤ R) (p : Nat)
+    (hp : p ≤ n) (s t : Rat) (h0 : 0 ≤ s) (hst : s ≤ t) (hlow : ∀ i, i < p → T i ≤ s) :
+    1 / auxAt x T p s - 1 / auxAt x T p t ≤ R * (t - s) := by
+  have hR0 : 0 ≤ R := le_trans (h.rate_nonneg 0) (hR 0)
+  have hA1 : 1 ≤ auxAt x T p s := auxAt_ge_one h p hp s h0 hlow
+  have hB1 : 1 ≤ auxAt x T p t := le_trans hA1 (auxAt_mono_t h p hp s t hst)
+  refine inv_sub_inv_le (by linarith) hB1 (aux_affine_on_piece x T p s t) ?_ (sub_nonneg.mpr hst) hR0
+  cases p with
+  | zero =>
+    simp only [if_true]
+    have := mul_le_mul_of_nonneg_left hA1 hR0
+    have := hR 0; linarith
+  | succ q =>
+    simp only [Nat.succ_ne_zero, if_false, Nat.add_sub_cancel]
+    rw [auxAt_succ]
+    have hH := head_ge_one h q hp
+    set H := (1 + x 0 * T 0) * prodTo q (fun k => 1 + x k * (T (k + 1) - T k)) with hHd
+    have ha : 1 ≤ 1 + x q * (s - T q) := by
+      have := mul_nonneg (h.rate_nonneg q) (sub_nonneg.mpr (hlow q (by omega))); linarith
+    have h1 : H * x q ≤ H * R := mul_le_mul_of_nonneg_left (hR q) (by linarith)
+    have h2 : H * R ≤ H * R * (1 + x q * (s - T q)) := le_mul_of_one_le_right (mul_nonneg (by linarith) hR0) ha
+    have e : R * (H * (1 + x q * (s - T q))) = H * R * (1 + x q * (s - T q)) := by ring
+    rw [e]; linarith
+
+/-- crossing `k` tenors -/
+theorem df_lipschitz_chain {x T : Nat → Rat} {n : Nat} (h : Curve x T n) {R : Rat} (hR : ∀ i, x i ≤ R) (k : Nat) :
+    ∀ (p : Nat) (s t : Rat), p + k ≤ n → 0 ≤ s → s ≤ t → (∀ i, i < p → T i ≤ s) → (0 < k → s ≤ T p) →
+      (∀ i, i < p + k → T i ≤ t) → 1 / auxAt x T p s - 1 / auxAt x T (p + k) t ≤ R * (t - s) := by
+  induction k with
+  | zero => intro p s t hp h0 hst hlow _ _; exact df_lipschitz_on_piece h hR p hp s t h0 hst hlow
+  | succ k ih =>
+    intro p s t hp h0 hst hlow hs hlt
+    have hsT : s ≤ T p := hs (by omega)
+    have h1 := df_lipschitz_on_piece h hR p (by omega) s (T p) h0 hsT hlow
+    have hTt : T p ≤ t := hlt p (by omega)
+    have h2 := ih (p + 1) (T p) t (by omega) (le_trans h0 hsT) hTt
+      (by
+        intro i hi
+        by_cases hip : i < p
+        · exact le_trans (hlow i hip) hsT
+        · have : i = p := by omega
+          subst this; exact le_refl _)
+      (fun _ => h.sorted p (by omega)) (fun i hi => hlt i (by omega))
+    rw [aux_continuous_at_tenors] at h2
+    have e : p + (k + 1) = p + 1 + k := by omega
+    rw [e]
+    have e2 : R * (t - s) = R * (T p - s) + R * (t - T p) := by ring
+    rw [e2]; linarith
+
+theorem nth_le_of_forall (l : List Rat) (R : Rat) (h : ∀ r ∈ l, r ≤ R) (hR : 0 ≤ R) (i : Nat) : nth l i ≤ R := by
+  unfold nth
+  by_cases hi : i < l.length
+  · rw [List.getD_eq_getElem?_getD, List.getElem?_eq_getElem hi]; exact h _ (List.getElem_mem hi)
+  · rw [List.getD_eq_getElem?_getD, List.getElem?_eq_none (by omega)]; simpa using hR
+
+/-- **df is Lipschitz in time with constant the largest rate** — over all times ≥ 0, through every tenor: for `s ≤ t`,
+    `0 ≤ df(s) − df(t) ≤ R·(t − s)` -/
+theorem df_lipschitz (x0 tenors : List Rat) (hx : ∀ r ∈ x0, 0 ≤ r) (hT : ∀ T ∈ tenors, 0 ≤ T) (hs : SortedT tenors)
+    (R : Rat) (hR0 : 0 ≤ R) (hR : ∀ r ∈ x0, r ≤ R) (s t : Rat) (h0 : 0 ≤ s) (hst : s ≤ t) :
+    0 ≤ dfCurve x0 tenors s - dfCurve x0 tenors t ∧ dfCurve x0 tenors s - dfCurve x0 tenors t ≤ R * (t - s) := by
+  constructor
+  · have := df_antitone x0 tenors hx hT hs s t h0 hst; linarith
+  · unfold dfCurve aux
+    have hm := searchLeft_mono tenors s t hst
+    obtain ⟨k, hk⟩ : ∃ k, searchLeft tenors t = searchLeft tenors s + k := ⟨_, (Nat.add_sub_cancel' hm).symm⟩
+    rw [hk]
+    apply df_lipschitz_chain (curve_of_lists x0 tenors hx hT hs) (nth_le_of_forall x0 R hR hR0) k _ s t
+    · rw [← hk]; exact searchLeft_le_length _ _
+    · exact h0
+    · exact hst
+    · intro i hi; exact le_of_lt (searchLeft_lt tenors s i hi)
+    · intro hk0
+      apply searchLeft_ge
+      have := searchLeft_le_length tenors t; omega
+    · intro i hi; rw [← hk] at hi; exact le_of_lt (searchLeft_lt tenors t i hi)
+
+/-- `|df(s) − df(t)| ≤ R·|s − t|` for all times `s, t ≥ 0` -/
+theorem df_lipschitz_abs (x0 tenors : List Rat) (hx : ∀ r ∈ x0, 0 ≤ r) (hT : ∀ T ∈ tenors, 0 ≤ T) (hs : SortedT tenors)
+    (R : Rat) (hR0 : 0 ≤ R) (hR : ∀ r ∈ x0, r ≤ R) (s t : Rat) (hs0 : 0 ≤ s) (ht0 : 0 ≤ t) :
+    |dfCurve x0 tenors s - dfCurve x0 tenors t| ≤ R * |s - t| := by
+  rcases le_total s t with hst | hts
+  · obtain ⟨h1, h2⟩ := df_lipschitz x0 tenors hx hT hs R hR0 hR s t hs0 hst
+    rw [abs_of_nonneg h1, abs_of_nonpos (by linarith)]; linarith
+  · obtain ⟨h1, h2⟩ := df_lipschitz x0 tenors hx hT hs R hR0 hR t s ht0 hts
+    rw [abs_of_nonpos (by linarith), abs_of_nonneg (by linarith)]; linarith
+
+/-- **df is (uniformly) continuous, ε-δ**: for every ε > 0 there is δ > 0 such that any two times ≥ 0 closer than δ
+    have discount factors closer than ε — for every curve with non-negative rates and sorted non-negative tenors -/
+theorem df_continuous_eps_delta (x0 tenors : List Rat) (hx : ∀ r ∈ x0, 0 ≤ r) (hT : ∀ T ∈ tenors, 0 ≤ T)
+    (hs : SortedT tenors) (ε : Rat) (hε : 0 < ε) :
+    ∃ δ : Rat, 0 < δ ∧ ∀ s t : Rat, 0 ≤ s → 0 ≤ t → |s - t| < δ →
+      |dfCurve x0 tenors s - dfCurve x0 tenors t| < ε := by
+  -- a bound of the rates: their sum + 1 (positive)
+  obtain ⟨R, hRpos, hR⟩ : ∃ R : Rat, 0 < R ∧ ∀ r ∈ x0, r ≤ R := by
+    clear hs hT
+    induction x0 with
+    | nil => exact ⟨1, one_pos, by simp⟩
+    | cons a l ih =>
+      obtain ⟨R, hRp, hRl⟩ := ih (fun r hr => hx r (by simp [hr]))
+      have ha : 0 ≤ a := hx a (by simp)
+      refine ⟨R + a, by linarith, ?_⟩
+      intro r hr
+      simp only [List.mem_cons] at hr
+      rcases hr with rfl | hr
+      · linarith
+      · have := hRl r hr; linarith
+  refine ⟨ε / R, div_pos hε hRpos, ?_⟩
+  intro s t hs0 ht0 hd
+  have hl := df_lipschitz_abs x0 tenors hx hT hs R hRpos.le hR s t hs0 ht0
+  have : R * |s - t| < R * (ε / R) := mul_lt_mul_of_pos_left hd hRpos
+  have e : R * (ε / R) = ε := by field_simp
+  linarith
+
+/-! ### df at the tenors: the product of the simple compounding factors of the initial curve, unequal accrual periods -/
+
+/-- `np.searchsorted(tenors, tenors[p]) = p` for strictly increasing tenors -/
+theorem searchLeft_nth (tenors : List Rat) (h : tenors.Pairwise (· < ·)) (p : Nat) (hp : p < tenors.length) :
+    searchLeft tenors (nth tenors p) = p := by
+  induction tenors generalizing p with
+  | nil => simp at hp
+  | cons a r ih =>
+    rw [List.pairwise_cons] at h
+    cases p with
+    | zero => simp [searchLeft, nth]
+    | succ q =>
+      have hq : q < r.length := by simpa using hp
+      have hmem : nth r q ∈ r := by
+        unfold nth; rw [List.getD_eq_getElem?_getD, List.getElem?_eq_getElem hq]; exact List.getElem_mem hq
+      have hlt : a < nth r q := h.1 _ hmem
+      have e : nth (a :: r) (q + 1) = nth r q := by simp [nth]
+      rw [e]
+      simp only [searchLeft, hlt, if_true]
+      rw [ih h.2 q hq]
+
+/-- **at the `p`-th tenor the compounding factor is `(1 + x_0 T_0) · ∏_{k<p} (1 + x_k (T_{k+1} − T_k))`** — each
+    accrual period with its own length; pure algebra of the coded branch formula (both rate models share it) -/
+theorem aux_at_tenor_is_product (x T : Nat → Rat) (p : Nat) :
+    auxAt x T p (T p) = (1 + x 0 * T 0) * prodTo p (fun k => 1 + x k * (T (k + 1) - T k)) := by
+  cases p with
+  | zero => simp [auxAt]
+  | succ q => rw [auxAt_succ, prodTo_succ]; ring
+
+/-- the same for `model.df` of `LevyForwardModel` / `LevyLiborModel` on a strictly increasing tenor array -/
+theorem df_at_tenor_is_product (x0 tenors : List Rat) (h : tenors.Pairwise (· < ·)) (p : Nat) (hp : p < tenors.length) :
+    dfCurve x0 tenors (nth tenors p)
+      = 1 / ((1 + nth x0 0 * nth tenors 0)
+          * prodTo p (fun k => 1 + nth x0 k * (nth tenors (k + 1) - nth tenors k))) := by
+  unfold dfCurve aux
+  rw [searchLeft_nth tenors h p hp, aux_at_tenor_is_product]
+
+/-- non-vacuity with unequal accrual periods (1/2, 3/2, 1/4) and a zero rate -/
+example : dfCurve [1/50, 0, 1/20] [1/2, 2, 9/4, 3] (9/4)
+    = 1 / ((1 + 1/50 * (1/2)) * ((1 + 1/50 * (3/2)) * (1 + 0 * (1/4)))) := by
+  have h := df_at_tenor_is_product [1/50, 0, 1/20] [1/2, 2, 9/4, 3] (by simp; norm_num) 2 (by simp)
+  simp only [nth, List.getD_cons_succ, List.getD_cons_zero, prodTo] at h
+  rw [h]; ring
+
+/-! ### the same over the real numbers
+
+`Lemmas/C16Real.lean` restates the curve over an arbitrary linearly ordered field (`dfCurveK`; `dfCurveK_rat`: at ℚ it is
+the executable `dfCurve`) and proves the Lipschitz bound and the ε-δ statement there.  Instantiated at ℝ: -/
+
+/-- **`df` with real times, rates, tenors is continuous on `[0, ∞)`** (ε-δ, uniformly), and Lipschitz with the largest
+    rate as constant -/
+theorem df_continuous_over_reals (x0 tenors : List ℝ) (hx : ∀ r ∈ x0, 0 ≤ r) (hT : ∀ T ∈ tenors, 0 ≤ T)
+    (hs : SortedTK tenors) :
+    (∀ ε : ℝ, 0 < ε → ∃ δ : ℝ, 0 < δ ∧ ∀ s t : ℝ, 0 ≤ s → 0 ≤ t → |s - t| < δ →
+      |dfCurveK x0 tenors s - dfCurveK x0 tenors t| < ε) ∧
+    (∀ R : ℝ, 0 ≤ R → (∀ r ∈ x0, r ≤ R) → ∀ s t : ℝ, 0 ≤ s → 0 ≤ t →
+      |dfCurveK x0 tenors s - dfCurveK x0 tenors t| ≤ R * |s - t|) :=
+  ⟨fun ε hε => df_real_continuous_eps_delta x0 tenors hx hT hs ε hε,
+   fun R hR0 hR s t hs0 ht0 => df_real_lipschitz x0 tenors hx hT hs R hR0 hR s t hs0 ht0⟩
+
+/-- the field-generic curve at ℚ is the model the driver executes -/
+theorem dfCurveK_is_model (x0 tenors : List Rat) (t : Rat) : dfCurveK x0 tenors t = dfCurve x0 tenors t :=
+  dfCurveK_rat x0 tenors t
+
+/-- non-vacuity over ℝ: the default curve (rates 2 %, tenors 5, 6, 7) -/
+example : SortedTK ([5, 6, 7] : List ℝ) := by
+  intro i hi
+  have : i = 0 ∨ i = 1 := by simp at hi; omega
+  rcases this with rfl | rfl <;> norm_num [nthK]
 
 /-! ### the curve before the fix (levyforwardmodel.py:63 `aux = …`): negation witnesses -/
 
